@@ -306,7 +306,7 @@ Validity check_validity(const GroupVT* vt, const double* c) {
 ValKind op_value_kind(int op) {
   switch (op) {
     case OP_INVERSE: case OP_COMPOSE: case OP_BETWEEN: case OP_RPLUS: case OP_LPLUS: case OP_PLUS:
-    case OP_MUL: case OP_ADD: case OP_CASTRT: case OP_COEFFS: case OP_CONSTRUCT: case OP_EXP: case OP_RETRACT:
+    case OP_MUL: case OP_ADD: case OP_CASTRT: case OP_COEFFS: case OP_CONSTRUCT: case OP_CTOR: case OP_EXP: case OP_RETRACT:
     case OP_T_RPLUS_X: case OP_T_LPLUS_X: case OP_T_PLUS_X: case OP_T_ADD_X:
     case OP_IDENTITY: case OP_RANDOM: case OP_INTERP_SLERP: case OP_INTERP_CUBIC: case OP_INTERP_SMOOTH:
     case OP_AVG_BIINV: case OP_AVG: case OP_AVG_FL: case OP_AVG_FR:
